@@ -6,8 +6,11 @@ program, compiled by exactly one worker; base models are pre-built serially in s
 
   base      ::= sphere | ellipsoid | cylinder [valid] | barbell [two-parameter valid] | hollow_cylinder [shell]
               | core_shell_sphere | parallelepiped [psi] | vesicle [own volfraction] | lamellar
-              | triaxial_ellipsoid | @gen  (a generated C plug-in with a one-letter volume parameter `a`,
-                a validity predicate a <= bb, shell volume and two R_eff modes)
+              | triaxial_ellipsoid
+              | @gen   (generated C plug-in: one-letter volume parameter `a`, validity predicate a <= bb, shell
+                        volume, two R_eff modes, complete C functions incl. Fq in c_code)
+              | @gen2  (the same model with the parameter named `aa` and form_volume / shell_volume / Iq given
+                        as C function BODIES, the style of lamellar)
   replaced  ::= one replaceable base parameter (every volume parameter, plus listed scalar ones)
               | an (ordered, table-order) pair of volume parameters
   template  ::= size 1: affine | affine-neg (mesh reaches negative base values) | power | ratio (uses a
@@ -93,7 +96,10 @@ parameters = [
 ]
 valid = "%(A)s <= bb"
 radius_effective_modes = ["mode 1", "mode 2"]
-have_Fq = True
+%(functions)s
+'''
+# @gen: complete C functions in c_code, <F> and <F^2> through Fq
+GEN_FUNCTIONS_CCODE = '''have_Fq = True
 c_code = """
 static double form_volume(double a, double bb) { return a*bb*bb; }
 static double shell_volume(double a, double bb) { return a*bb*bb - 0.5*a*a*a; }
@@ -106,7 +112,22 @@ static void Fq(double q, double *F1, double *F2, double a, double bb, double c0)
 }
 """
 '''
-GEN_NAMES = {"@gen": ("verif_c16base", "a"), "@gen2": ("verif_c16base2", "aa")}
+# @gen2: function BODIES given as strings (the wrapper generator writes the argument lists), like lamellar
+GEN_FUNCTIONS_INLINE = '''form_volume = """
+    return aa*bb*bb;
+"""
+shell_volume = """
+    return aa*bb*bb - 0.5*aa*aa*aa;
+"""
+Iq = """
+    const double f = c0*aa*bb/(1.0 + q*q*aa*aa) + bb/(1.0 + q*q*bb*bb);
+    return f*f + 0.25*c0;
+"""
+c_code = """
+static double radius_effective(int mode, double a, double bb) { return mode == 1 ? a + 2.0*bb : bb - 0.5*a; }
+"""
+'''
+GEN_NAMES = {"@gen": ("verif_c16base", "a", GEN_FUNCTIONS_CCODE), "@gen2": ("verif_c16base2", "aa", GEN_FUNCTIONS_INLINE)}
 
 
 # ------------------------------------------------------------------------------------------------
@@ -261,10 +282,10 @@ def setup(ctx):
     bad = build.prebuild(ctx, names)
     if bad:
         raise HarnessError("base models failed to build: %r" % bad)
-    for key, (name, first) in GEN_NAMES.items():
+    for key, (name, first, functions) in GEN_NAMES.items():
         path = os.path.join(ctx.scratch, name + ".py")
         with open(path, "w") as fh:
-            fh.write(GEN_BASE % {"name": name, "A": first})
+            fh.write(GEN_BASE % {"name": name, "A": first, "functions": functions})
         ctx.notes[key] = path
         core.load_model(path, dtype="double", platform="dll")      # compiled once, serially
 
@@ -427,7 +448,11 @@ def _run_prog(case, ctx):
             warnings.simplefilter("ignore")
             model = core.build_model(dinfo, dtype="double", platform="dll")
     except Exception as exc:  # noqa
-        r.fail("%s could not be built: %r" % (call, exc), dict(fk0, clause="build"))
+        fk = dict(fk0, clause="build")
+        if isinstance(binfo.Iq, str):
+            # base model whose functions are given as C bodies in the definition: one finding per base model
+            fk = {"clause": "build", "base": base, "inline_c_functions": True}
+        r.fail("%s could not be built: %r" % (call, exc), fk, branches=["build-failed"])
         return r
 
     # ---- values
